@@ -17,6 +17,7 @@ import (
 	"encoding/json"
 	"fmt"
 	"os"
+	"path/filepath"
 	"regexp"
 	"sort"
 	"strings"
@@ -206,6 +207,30 @@ func programs() []prog {
 				return fmt.Sprint(w.errs["b"] == nil, group.Get("g") != nil), nil
 			}
 	})
+	// the description file of a group in memory has vanished: the reload
+	// fails and the group is dropped from the table, while others walk the table
+	add("vanished-description-vs-listing", func() ([]func(), []string, func() (string, *core.Violation)) {
+		newWorld(descPlain)
+		group.Add("g", nil)
+		os.Remove(filepath.Join(glife.Dir(), "groups", "g.json"))
+		return []func(){
+				func() { group.Add("g", nil) },
+				func() { group.GetSubGroups(""); group.GetPublic(nil); group.Delete("g") },
+			}, []string{"reload(fails)", "listings+delete"}, func() (string, *core.Violation) {
+				return fmt.Sprint(group.Get("g") != nil), nil
+			}
+	})
+	add("vanished-description-vs-join", func() ([]func(), []string, func() (string, *core.Violation)) {
+		w := newWorld(descPlain)
+		w.join(w.a, "alice", "pa")
+		os.Remove(filepath.Join(glife.Dir(), "groups", "g.json"))
+		return []func(){
+				func() { group.Update() },
+				func() { w.join(w.b, "bob", "pb"); stats.GetGroups() },
+			}, []string{"update(reload fails)", "join(bob)+stats"}, func() (string, *core.Violation) {
+				return fmt.Sprint(w.errs["b"] == nil, group.Get("g") != nil), nil
+			}
+	})
 	add("expiring-update-vs-listing", func() ([]func(), []string, func() (string, *core.Violation)) {
 		newWorld(descPlain)
 		group.Add("g", nil)
@@ -340,7 +365,10 @@ func programs() []prog {
 		w.join(w.a, "alice", "pa")
 		g := group.Get("g")
 		return []func(){
-				func() { g.UpdateData(map[string]interface{}{"k": "v"}); g.AddToChatHistory("i", "a", nil, time.Time{}, "", "x") },
+				func() {
+					g.UpdateData(map[string]interface{}{"k": "v"})
+					g.AddToChatHistory("i", "a", nil, time.Time{}, "", "x")
+				},
 				func() { g.Data(); g.Status(true, nil); g.GetChatHistory(); g.ClearChatHistory("", "") },
 				func() { group.GetPublic(nil); group.GetSubGroups("g"); g.ClientCount() },
 			}, []string{"setdata+chat", "status+history", "public+subgroups"}, func() (string, *core.Violation) {
